@@ -1,4 +1,5 @@
 pub mod checks;
+pub mod lin;
 pub mod comp;
 pub mod model;
 pub mod sim;
